@@ -8,7 +8,7 @@ sets left on every candle).
 from __future__ import annotations
 
 from hxv import boot
-from hxv.core import rows_to_candles, same, short, snapshot
+from hxv.core import ts_of, tf_seconds, rows_to_candles, same, short, snapshot
 from hxv.drive import encode_chunk
 from hxv.gen import configs, streams
 from hxv.gen.timeframes import pick_timeframe
@@ -75,7 +75,7 @@ def gen_case(rng, tier, idx):
             continue
         elif w == "replace":
             words.append({"op": "replace", "m": rng.randint(0, 5), "input": rng.choice(["high", "low", "open"]), "form": rng.choice(["object", "dict"]),
-                          "then": rng.choice(["nothing", "recalculate_one", "remove"])})
+                          "then": rng.choice(["nothing", "recalculate_one", "remove"]), "move": rng.random() < 0.35, "mult": rng.choice([2, 3])})
         elif w == "add":
             words.append({"op": "add", "spare": rng.randint(0, 1), "form": rng.choice(["object", "dict"])})
         else:
@@ -263,9 +263,20 @@ def run_case(case):
                 # place of the registered member of that name; what the old one wrote (helpers included) must not survive into the new one
                 old_name = member_name(w.get("m", 0))
                 ocfg = next(c for c, n_ in members if n_ == old_name)
-                if ocfg["cls"] not in configs.HAS_INPUT or ocfg["cls"] in ("ROC", "STOCH", "KC", "Supertrend") or ocfg["kw"].get("input_value") == w["input"]:
+                if w.get("move") and ocfg["cls"] != "Amorph":
+                    # ... or it keeps every parameter and moves to another timeframe under the old name (fullname_override): nothing the old
+                    # one wrote may stay behind on the candles of the timeframe it leaves
+                    step_s = int((ts_of(rows[1][0]) - ts_of(rows[0][0])).total_seconds()) or 60
+                    base_s = tf_seconds(tf) if tf else step_s
+                    s_ = base_s * w.get("mult", 2) * (2 if ocfg["kw"].get("timeframe") else 1)
+                    ntf = f"S{s_}" if s_ % 60 else (f"T{s_ // 60}" if s_ % 3600 else f"H{s_ // 3600}")
+                    if ntf == ocfg["kw"].get("timeframe"):
+                        continue
+                    ncfg = {"cls": ocfg["cls"], "kw": {**ocfg["kw"], "timeframe": ntf, "fullname_override": old_name}}
+                elif ocfg["cls"] not in configs.HAS_INPUT or ocfg["cls"] in ("ROC", "STOCH", "KC", "Supertrend") or ocfg["kw"].get("input_value") == w["input"]:
                     continue
-                ncfg = {"cls": ocfg["cls"], "kw": {**ocfg["kw"], "input_value": w["input"]}}
+                else:
+                    ncfg = {"cls": ocfg["cls"], "kw": {**ocfg["kw"], "input_value": w["input"]}}
                 if configs.build(ncfg).name != old_name:
                     continue
                 obj.add_indicator(configs.build(ncfg) if w["form"] == "object" else configs.as_dict_form(ncfg))
